@@ -519,6 +519,15 @@ sf_close	(SNDFILE *sndfile)
 
 	VALIDATE_SNDFILE_AND_ASSIGN_PSF (sndfile, psf, 1) ;
 
+	/*
+	** If no audio was ever written, the header on disk predates whatever
+	** metadata was set after the open. Write it now, as the first write call
+	** would have, so the length fields written on close take it into account.
+	*/
+	if (psf->file.mode == SFM_WRITE && psf->have_written == SF_FALSE &&
+			psf->is_pipe == SF_FALSE && psf->write_header != NULL)
+		psf->write_header (psf, SF_FALSE) ;
+
 	return psf_close (psf) ;
 } /* sf_close */
 
